@@ -14,9 +14,15 @@ type Plan struct {
 	Tasks     [][]Op     `json:"tasks"`
 	Sched     []uint32   `json:"sched,omitempty"`
 	PreSched  []uint32   `json:"presched,omitempty"`
-	PoolDec   []uint8    `json:"pooldec,omitempty"`
+	PoolDec   []int      `json:"pooldec,omitempty"`
 	Preempt   [][]int64  `json:"preempt,omitempty"`
 	MaxPoints int64      `json:"max_points,omitempty"`
+	// Jitter shifts the race monitor's per-goroutine event trace (task i does
+	// Jitter*(i+1) private memory writes before its first operation). The
+	// monitor evicts access records pseudo-randomly by trace position, so a
+	// race it reported inside a long batch may need a particular shift to be
+	// reported again by a fresh process; the other oracles ignore it.
+	Jitter int `json:"jitter,omitempty"`
 }
 
 // Cell sharing modes.
@@ -60,7 +66,11 @@ type Op struct {
 }
 
 func (p *Plan) simConfig(trace bool) rt.Config {
-	return rt.Config{Sched: p.Sched, PreSched: p.PreSched, PoolDec: p.PoolDec, Preempt: p.Preempt, MaxPoints: p.MaxPoints, Trace: trace}
+	pd := make([]uint8, len(p.PoolDec))
+	for i, d := range p.PoolDec {
+		pd[i] = uint8(d)
+	}
+	return rt.Config{Sched: p.Sched, PreSched: p.PreSched, PoolDec: pd, Preempt: p.Preempt, MaxPoints: p.MaxPoints, Trace: trace}
 }
 
 func (p *Plan) nOps() int {
